@@ -150,6 +150,12 @@ fn materialise(case: &Case) -> TempDir {
 }
 
 fn run_sg(case: &Case, dir: &TempDir, target: &str, threads: usize, sched: Option<u64>, unprivileged: bool) -> cli::Out {
+  run_sg_stall(case, dir, target, threads, sched, unprivileged, None)
+}
+
+/// `stall`: with the hook, about one file in eight is held back that many milliseconds before
+/// it is processed (a slow file)
+fn run_sg_stall(case: &Case, dir: &TempDir, target: &str, threads: usize, sched: Option<u64>, unprivileged: bool, stall: Option<u64>) -> cli::Out {
   let j = threads.to_string();
   let mut args: Vec<String> = if case.scan {
     vec!["scan".into(), "-r".into(), "rule.yml".into()]
@@ -167,6 +173,9 @@ fn run_sg(case: &Case, dir: &TempDir, target: &str, threads: usize, sched: Optio
   cmd.args(&args).current_dir(&dir.path);
   if let Some(s) = sched {
     cmd.env("AST_GREP_VERIF_SCHED", s.to_string());
+    if let Some(ms) = stall {
+      cmd.env("AST_GREP_VERIF_SCHED_STALL", ms.to_string());
+    }
   }
   let out = cli::run_cmd(cmd, None, cli::WATCHDOG);
   if out.timed_out {
@@ -236,7 +245,13 @@ pub fn check(case: &Case, st: &mut Stats) -> CheckResult {
   let mut seen_reorder = false;
   for (i, (threads, sched)) in case.threads.iter().zip(case.sched.iter()).enumerate() {
     let use_sched = i % 3 != 2;
-    let out = run_sg(case, &dir, "tree", *threads, use_sched.then_some(*sched), unprivileged);
+    // one run of some trees has slow files: nothing reaches the printer for more than a second
+    // (small trees only, the stalls add up on one thread)
+    let stall = (i == 1 && sched % 3 == 0 && walked.len() <= 24).then_some(1200u64);
+    if stall.is_some() {
+      st.label("run_with_stalled_files");
+    }
+    let out = run_sg_stall(case, &dir, "tree", *threads, use_sched.then_some(*sched), unprivileged, stall);
     if out.timed_out {
       fail!("C17:hang", "sg did not terminate on the tree with -j {threads} (schedule seed {sched})");
     }
